@@ -27,6 +27,8 @@ pub struct Rw {
     pub live_guards: Vec<String>,
     /// guards discovered under `guards=*`
     pub star_guards: Vec<String>,
+    pub scrut_counter: usize,
+    pub pre_visited: usize,
     /// R18: captured locals of `retain` closures: (name, type text), from the contract's `retain_captures`
     pub retain_captures: Vec<(String, String)>,
     /// R18: lifted closure bodies: (fn name, key pattern, value pattern, body)
@@ -142,6 +144,8 @@ impl Rw {
             guards: HashSet::new(),
             live_guards: Vec::new(),
             star_guards: Vec::new(),
+            scrut_counter: 0,
+            pre_visited: 0,
             retain_captures: Vec::new(),
             lifted: Vec::new(),
             fn_name: String::new(),
@@ -487,6 +491,34 @@ impl VisitMut for Rw {
                         let a = c.args[0].to_token_stream().to_string();
                         if self.guards.contains(&a) || self.star_guards.contains(&a) {
                             released = Some(a);
+                        }
+                    }
+                }
+                // R27: a lock guard that is a TEMPORARY of an `if let` / `match` scrutinee lives until the end of that whole
+                // statement (Rust's temporary lifetime rule): every arm / branch body runs with it held
+                if !self.guards.is_empty() {
+                    let scrut: Option<&Expr> = match &st {
+                        Stmt::Expr(Expr::If(i), _) => match &*i.cond { Expr::Let(l) => Some(&*l.expr), _ => None },
+                        Stmt::Expr(Expr::Match(m), _) => Some(&*m.expr),
+                        Stmt::Local(l) => None.or(l.init.as_ref().and_then(|i| match &*i.expr { Expr::Match(m) => Some(&*m.expr), _ => None })),
+                        _ => None,
+                    };
+                    if let Some(sc) = scrut {
+                        let t = sc.to_token_stream().to_string();
+                        let holds = [". lock () . await .", ". read () . await .", ". write () . await ."].iter().any(|k| t.contains(k));
+                        if holds {
+                            self.scrut_counter += 1;
+                            let g = format!("scrutinee{}", self.scrut_counter);
+                            let id = Ident::new(&g, Span::call_site());
+                            self.star_guards.push(g.clone());
+                            self.log.push("R27 lock guard held by a scrutinee temporary tracked".into());
+                            // the ghost flag is raised just before the statement (the guard is taken while the scrutinee is
+                            // evaluated) and lowered right after it; nested blocks are visited with the guard in scope
+                            out.push(parse_quote!(vx_guard_acquired!(#id);));
+                            out.push(st.clone());
+                            out.push(parse_quote!(vx_guard_released!(#id);));
+                            declared.push(g.clone());
+                            continue;
                         }
                     }
                 }
@@ -1099,7 +1131,8 @@ fn stmt_has_foreign_await(st: &Stmt) -> bool {
     impl<'a> syn::visit::Visit<'a> for F {
         fn visit_expr_await(&mut self, a: &'a ExprAwait) {
             let s = a.base.to_token_stream().to_string();
-            if !s.trim_end().ends_with(". lock ()") {
+            let t = s.trim_end();
+            if !(t.ends_with(". lock ()") || t.ends_with(". read ()") || t.ends_with(". write ()")) {
                 self.0 = true;
             }
             syn::visit::visit_expr_await(self, a);
